@@ -40,6 +40,12 @@ def check_ideal(case, ctx):
     ctx.close('C20.ideal/V-from-P', eos.get_V(T=T, P=P2, n=n), V * k, rtol=1e-12)
     T2 = eos.get_T(V=V, P=P, n=n * k)
     ctx.close('C20.ideal/n-from-T', eos.get_n(V=V, P=P, T=T2), n * k, rtol=1e-12)
+    # documented defaults of every getter: T = 298.15 K, P = 1 bar, n = 1 mol (each omitted in turn)
+    T0_, P0_ = 298.15, 1.0
+    ctx.close('C20.ideal/defaults:all-getters',
+              [eos.get_n(V=V, T=T), eos.get_n(V=V, P=P), eos.get_T(V=V, n=n), eos.get_P(V=V, n=n), eos.get_P(T=T, n=n) * 0 + eos.get_P(V=V, T=T)],
+              [eos.get_n(V=V, P=P0_, T=T), eos.get_n(V=V, P=P, T=T0_), eos.get_T(V=V, P=P0_, n=n), eos.get_P(V=V, T=T0_, n=n),
+               eos.get_P(V=V, T=T, n=1.0)], rtol=1e-12)
     # documented defaults: one mole, 298.15 K, 1 bar
     V1 = eos.get_V(T=T, P=P, n=1.)
     ctx.close('C20.ideal/defaults:n', [eos.get_V(T=T, P=P), eos.get_P(T=T, V=V1), eos.get_T(V=V1, P=P)], [V1, P, T], rtol=1e-12)
@@ -119,6 +125,12 @@ def check_vdw(case, ctx):
     Vd = eos.get_V(T=T, P=P, n=1., gas_phase=gas)
     ctx.close('C20.vdw/defaults:n', [eos.get_P(T=T, V=Vd), eos.get_T(V=Vd, P=P)],
               [eos.get_P(T=T, V=Vd, n=1.), eos.get_T(V=Vd, P=P, n=1.)], rtol=1e-13)
+    ctx.close('C20.vdw/defaults:all-getters',
+              [eos.get_n(V=V, T=T, gas_phase=gas), eos.get_n(V=V, P=P, gas_phase=gas), eos.get_T(V=V, n=n), eos.get_P(V=V, n=n),
+               eos.get_V(P=P, n=n, gas_phase=gas), eos.get_V(T=T, n=n, gas_phase=gas)],
+              [eos.get_n(V=V, P=1.0, T=T, gas_phase=gas), eos.get_n(V=V, P=P, T=298.15, gas_phase=gas),
+               eos.get_T(V=V, P=1.0, n=n), eos.get_P(V=V, T=298.15, n=n),
+               eos.get_V(T=298.15, P=P, n=n, gas_phase=gas), eos.get_V(T=T, P=1.0, n=n, gas_phase=gas)], rtol=1e-12)
     # documented defaults: one mole, the gas-like root
     ctx.close('C20.vdw/defaults', [eos.get_V(T=T, P=P, gas_phase=gas), eos.get_V(T=T, P=P, n=n), eos.get_Vm(T=T, P=P)],
               [eos.get_V(T=T, P=P, n=1., gas_phase=gas), eos.get_V(T=T, P=P, n=n, gas_phase=True),
